@@ -1,0 +1,65 @@
+//go:build verif
+
+package memfs
+
+import "fmt"
+
+// VerifCheck walks the internal node graph of the file system (without taking locks: it must be called
+// on a quiescent file system) and returns "ok" or a description of the first broken structural invariant:
+// every directory is reachable by exactly one path, there is no cycle, and the stored link counter of
+// every reachable file equals the number of directory entries referring to it.
+func (vfs *MemFS) VerifCheck() string {
+	refs := make(map[*fileNode]int)
+	seen := make(map[*dirNode]string)
+
+	var walk func(dn *dirNode, path string, depth int) string
+
+	walk = func(dn *dirNode, path string, depth int) string {
+		if depth > 64 {
+			return "cycle or excessive depth at " + path
+		}
+
+		if first, ok := seen[dn]; ok {
+			return fmt.Sprintf("directory reachable twice: %q and %q", first, path)
+		}
+
+		seen[dn] = path
+
+		for name, child := range dn.children {
+			switch c := child.(type) {
+			case nil:
+				return "nil child " + path + "/" + name
+			case *dirNode:
+				if msg := walk(c, path+"/"+name, depth+1); msg != "ok" {
+					return msg
+				}
+			case *fileNode:
+				refs[c]++
+			case *symlinkNode:
+			}
+		}
+
+		return "ok"
+	}
+
+	roots := []*dirNode{vfs.rootNode}
+	for _, r := range vfs.volumes {
+		if r != vfs.rootNode {
+			roots = append(roots, r)
+		}
+	}
+
+	for _, r := range roots {
+		if msg := walk(r, "", 0); msg != "ok" {
+			return msg
+		}
+	}
+
+	for fn, n := range refs {
+		if fn.nlink != n {
+			return fmt.Sprintf("file id %d: stored link count %d, %d entries refer to it", fn.id, fn.nlink, n)
+		}
+	}
+
+	return "ok"
+}
